@@ -144,6 +144,7 @@ def snapshot(model):
     except Exception as e:  # noqa: BLE001
         spaces["error"] = type(e).__name__
     snap = {"steps": model.steps, "agents": agents, "by_type": by_type, "model": m, "spaces": spaces,
+            "agent_types": [t.__name__ for t in model.agent_types],
             "random": _sha(model.random.getstate()), "rng": _sha(_canon(model.rng.bit_generator.state))}
     dc = getattr(model, "datacollector", None)
     if dc is not None:
@@ -620,7 +621,7 @@ def _job_name(job):
     if job["kind"] in ("example", "batch"):
         return job["model"]
     if job["kind"] == "script":
-        return "api-script/" + job["spec"]["space"]
+        return "api-script"
     return "Model"
 
 
@@ -660,7 +661,7 @@ def _prior_for(job, j):
 
 
 def run_env_case(case):
-    jobs = case["ops"]
+    jobs = case["jobs"]   # not "ops": the framework's op-deleting shrinker is not applied to environment histories
     hashseeds = case.get("hashseeds", [0, 1, 2])
     obs = [[-2] for _ in jobs]
     failures = []
@@ -670,9 +671,9 @@ def run_env_case(case):
     for hi, h in enumerate(hashseeds):
         order = list(range(len(jobs)))
         order = order[hi % len(jobs):] + order[:hi % len(jobs)]      # every job comes first in some interpreter
-        items = [{"job": jobs[i]} for i in order]
+        items = [{"job": jobs[i], "idx": i} for i in order]
         if case.get("priors", True):
-            items += [{"job": jobs[i], "priors": _prior_for(jobs[i], hi)} for i in order if jobs[i]["kind"] in ("example", "script")]
+            items += [{"job": jobs[i], "idx": i, "priors": _prior_for(jobs[i], hi)} for i in order if jobs[i]["kind"] in ("example", "script")]
         procs.append((h, order, items, _spawn(items, h)))
     runs = {i: [] for i in range(len(jobs))}    # job index -> [(env description, result)]
     for h, order, items, pp in procs:
@@ -681,7 +682,7 @@ def run_env_case(case):
             failures.append({"key": "driver-exception", "op": -1, "what": f"worker (PYTHONHASHSEED={h}) produced no result: {err}"})
             continue
         for pos, (it, r) in enumerate(zip(items, res)):
-            i = jobs.index(it["job"]) if it["job"] in jobs else -1
+            i = it["idx"]
             envd = f"PYTHONHASHSEED={h}, " + ("fresh interpreter" if pos == 0 else
                                               ("after other models ran in the same process" if "priors" in it or pos > 0 else ""))
             runs[i].append((envd, r, h, it))
@@ -895,6 +896,13 @@ def run_world_case(case):
                 fail("C01/_Grid.agents/silently-unseeded", i, "the .agents of an empty legacy grid got an unseeded generator without a UserWarning")
             return r, "TLegacyAgents", ne
         c, m, sd = ev(t[1], i)
+        r, m2, sd2 = ev_step(k, t, c, m, sd, i)
+        if sd and k != "new" and gflag(c) == 0 and gflag(r) != 0:
+            fail(f"C01/{T_SITE[k]}/generator-not-propagated", i,
+                 f"{_show_term(t)}: the receiver carries model.random but the result's .random is another generator")
+        return r, m2, sd2
+
+    def ev_step(k, t, c, m, sd, i):
         if k == "select":
             kmin, n = t[2], t[3]
             r = c.select(lambda a: a.key >= kmin, **({} if n is None else {"at_most": n}))
@@ -943,6 +951,13 @@ def run_world_case(case):
                 raise _NoSuch()
             return cells[t[1]].get_neighborhood(1, include_center=t[2]), f"(CNbhd {t[1]} {L.b(t[2])})", case["space_seeded"]
         c, m, sd = cev(t[1], i)
+        r, m2, sd2 = cev_step(k, t, c, m, sd, i)
+        if sd and k != "cnew" and gflag(c) == 0 and gflag(r) != 0:
+            fail(f"C01/{T_SITE[k]}/generator-not-propagated", i,
+                 f"{_show_term(t)}: the receiver carries model.random but the result's .random is another generator")
+        return r, m2, sd2
+
+    def cev_step(k, t, c, m, sd, i):
         if k == "cselect":
             oe, n = t[2], t[3]
             kw = {} if n is None else {"at_most": n}
@@ -981,11 +996,12 @@ def run_world_case(case):
                     members = [a.unique_id for a in c] if k == "derive" else [cidx[x] for x in c]
                     obs.append([gf] + members)
                     ops_m.append(("Derive " if k == "derive" else "DeriveC ") + m)
-                    site = T_SITE[op[1][0]]
-                    if sd and gf != 0:
-                        fail(f"C01/{site}/generator-not-propagated", i,
-                             f"{_show_term(op[1])}: the result's .random is not model.random although every collection it "
-                             "was derived from carries model.random")
+                    if sd and gf != 0 and not any(f["op"] == i and f["key"].endswith("generator-not-propagated") for f in failures):
+                        leaf = op[1]
+                        while len(leaf) > 1 and isinstance(leaf[1], list):
+                            leaf = leaf[1]
+                        fail(f"C01/{T_SITE[leaf[0]]}/generator-not-propagated", i,
+                             f"{_show_term(leaf)} does not carry model.random (so nothing derived from it does: {_show_term(op[1])})")
             elif k == "create":
                 s = KL[op[1]].create_agents(model, len(op[2]), list(op[2])) if len(op[2]) != 1 else KL[op[1]].create_agents(model, 1, op[2][0])
                 for a in s:
@@ -1010,9 +1026,12 @@ def run_world_case(case):
                     obs.append([-3])
                     ops_m.append("SelectRandomEmpty (-1)")
                 else:
+                    rnd.log = []
                     c = space.select_random_empty_cell()
-                    kk = empt.index(c) if c in empt else -1
-                    obs.append([0, cidx[c]])
+                    ch = [r for kind, r in rnd.log if kind == "choice"]
+                    # the index the generator drew (recorded when the space draws from model.random), else the position
+                    kk = ch[-1] if (gflag(space) == 0 and ch) else (empt.index(c) if c in empt else -1)
+                    obs.append([gflag(space), cidx[c]])
                     ops_m.append(f"SelectRandomEmpty {L.z(kk)}")
                     if c not in empt:
                         fail("C01/DiscreteSpace.select_random_empty_cell/not-empty", i, f"returned the occupied cell {c.coordinate}")
@@ -1084,6 +1103,127 @@ def run_world_case(case):
                         lg.remove_agent(a)
                         lg.place_agent(a, dest)
                         rnd.setstate(st_after)
+            elif k == "shuffle_do":
+                try:
+                    c, m, sd = ev(op[1], i)
+                except _NoSuch:
+                    obs.append([-2])
+                    ops_m.append(f"ShuffleDo {_term_nooutcome(op[1])} []")
+                else:
+                    before = [a.unique_id for a in c]
+                    called = []
+                    st = c.random.getstate()
+                    mst = rnd.getstate()
+                    c.shuffle_do(lambda a: called.append(a.unique_id))
+                    drew_model = rnd.getstate() != mst
+                    st2 = c.random.getstate()
+                    c.random.setstate(st)
+                    again = []
+                    c.shuffle_do(lambda a: again.append(a.unique_id))
+                    if again != called or c.random.getstate() != st2:
+                        fail("C01/AgentSet.shuffle_do/not-a-function-of-generator-state", i,
+                             f"shuffle_do over {before} from the same generator state activated {called} and then {again}")
+                    idxs = [before.index(x) for x in called] if sorted(before) == sorted(called) else [-1]
+                    obs.append([gflag(c)] + called)
+                    ops_m.append(f"ShuffleDo {m} {L.zlist(idxs)}")
+                    if [a.unique_id for a in c] != before:
+                        fail("C01/AgentSet.shuffle_do/reorders-the-set", i, f"shuffle_do changed the order of the AgentSet itself: {before} -> {[a.unique_id for a in c]}")
+                    if sd and len(before) > 1 and not drew_model:
+                        fail("C01/AgentSet.shuffle_do/drew-from-another-generator", i,
+                             f"shuffle_do over {len(before)} agents of a collection carrying model.random did not advance model.random")
+                    if len(before) > 1 and gflag(c) == 1 and drew_model:
+                        fail("C01/AgentSet.shuffle_do/drew-from-another-generator", i,
+                             "shuffle_do of a collection carrying its own generator advanced model.random")
+            elif k in ("rcell", "ragent"):
+                try:
+                    c, m, sd = cev(op[1], i)
+                except _NoSuch:
+                    obs.append([-2])
+                    ops_m.append(("RandomCell " if k == "rcell" else "RandomAgent ") + _term_nooutcome(op[1]) + " 0")
+                else:
+                    seq = [cidx[x] for x in c] if k == "rcell" else [a.unique_id for x in c for a in x._agents]
+                    mst = rnd.getstate()
+                    c.random.__dict__["log"] = []
+                    try:
+                        r = c.select_random_cell() if k == "rcell" else c.select_random_agent()
+                    except IndexError:
+                        if seq:
+                            raise
+                        obs.append([-1, 2])
+                        ops_m.append(("RandomCell " if k == "rcell" else "RandomAgent ") + m + " 0")
+                    else:
+                        drew_model = rnd.getstate() != mst
+                        val = cidx[r] if k == "rcell" else r.unique_id
+                        ch = [x for kind, x in c.random.__dict__.get("log", []) if kind == "choice"]
+                        kk = ch[-1] if (gflag(c) == 0 and ch) else (seq.index(val) if val in seq else -1)
+                        if k == "ragent" and seq.count(val) > 1:
+                            kk = -1   # cannot happen: an agent is in one cell
+                        obs.append([gflag(c), val])
+                        ops_m.append(("RandomCell " if k == "rcell" else "RandomAgent ") + m + " " + L.z(kk))
+                        site = "CellCollection.select_random_cell" if k == "rcell" else "CellCollection.select_random_agent"
+                        if val not in seq:
+                            fail(f"C01/{site}/not-a-member", i, f"{_show_term(op[1])}: returned {val}, members are {seq}")
+                        if (gflag(c) == 0) != drew_model:
+                            fail(f"C01/{site}/drew-from-another-generator", i,
+                                 f"{_show_term(op[1])}: the collection {'carries' if gflag(c) == 0 else 'does not carry'} model.random but "
+                                 f"model.random {'advanced' if drew_model else 'did not advance'}")
+            elif k == "tre":
+                empt = [c for c in cells if not c._agents]
+                if not empt:
+                    obs.append([-3])
+                    ops_m.append("TryRandomEmpty []")
+                else:
+                    space._try_random = True
+                    tape = []
+                    orig = type(space.all_cells).select_random_cell
+                    ac = space.all_cells
+
+                    def rec(self_=ac):
+                        x = orig(self_)
+                        tape.append(cidx[x])
+                        return x
+
+                    ac.select_random_cell = rec
+                    try:
+                        c = space.select_random_empty_cell()
+                    finally:
+                        del ac.select_random_cell
+                        space._try_random = False
+                    if not tape:
+                        tape = [cidx[c]]
+                    obs.append([gflag(space), cidx[c]])
+                    ops_m.append(f"TryRandomEmpty {L.zlist(tape)}")
+                    if c not in empt:
+                        fail("C01/Grid.select_random_empty_cell/not-empty", i, f"returned the occupied cell {c.coordinate}")
+            elif k == "oneof":
+                a = byid.get(op[1])
+                ps = [tuple(p) for p in op[2]]
+                closest = bool(op[3])
+                ok = a is not None and a in model.agents and a.pos is not None
+                if not ok:
+                    obs.append([-2])
+                    ops_m.append(f"MoveOneOf {op[1]} {L.lst([L.zpair(p) for p in ps])} {L.b(closest)} [] 0")
+                else:
+                    cur = a.pos
+                    offered = [p for p in ps if 0 <= p[0] < case["lw"] and 0 <= p[1] < case["lh"] and (lg.is_cell_empty(p) or p == cur)]
+                    arg = list(offered)
+                    rnd.log = []
+                    lg.move_agent_to_one_of(a, arg, selection="closest" if closest else "random")
+                    ch = [r for kind, r in rnd.log if kind == "choice"]
+                    kk = ch[-1] if ch else 0
+                    idxs = [offered.index(p) for p in arg] if closest and len(set(offered)) == len(offered) else []
+                    if offered:
+                        obs.append([0, a.pos[0], a.pos[1]] + lview())
+                    else:
+                        obs.append([0] + lview())
+                    ops_m.append(f"MoveOneOf {op[1]} {L.lst([L.zpair(p) for p in ps])} {L.b(closest)} {L.zlist(idxs)} {L.z(kk)}")
+                    if offered:
+                        if a.pos not in offered:
+                            fail("C01/_Grid.move_agent_to_one_of/destination-not-offered", i, f"moved to {a.pos}, offered {offered}")
+                        elif closest:
+                            d = lambda p: (p[0] - cur[0]) ** 2 + (p[1] - cur[1]) ** 2  # noqa: E731
+                            if any(d(q) < d(a.pos) for q in offered):
+                                fail("C01/_Grid.move_agent_to_one_of/not-the-closest", i, f"from {cur} moved to {a.pos} although {offered} holds a nearer position")
             else:
                 raise ValueError(k)
         except Exception as e:  # noqa: BLE001
@@ -1186,10 +1326,10 @@ def coq_case(case):
 
 def op_kinds(case):
     if case.get("kind") == "env":
-        return [f"env/{j['kind']}/{_job_name(j)}" for j in case["ops"]]
+        return [f"env/{j['kind']}/{_job_name(j)}" for j in case["jobs"]]
     out = []
     for op in case["ops"]:
-        if op[0] in ("derive", "derivec"):
+        if op[0] in ("derive", "derivec", "shuffle_do", "rcell", "ragent"):
             out.append(f"{op[0]}/{op[1][0]}")
         else:
             out.append(op[0])
@@ -1200,7 +1340,7 @@ def nontrivial(case):
     obs = case.get("_obs", [])
     if case.get("kind") == "env":
         return any(len(o) > 2 for o in obs)
-    return len(case["ops"]) >= 2 and any(len(o) > 1 and o[0] >= 0 for o in obs)
+    return len(case.get("ops", [])) >= 2 and any(len(o) > 1 and o[0] >= 0 for o in obs)
 
 
 # ------------------------------------------------------------------ generation
@@ -1256,9 +1396,17 @@ def _gen_world(rng, big=False):
             "ctorus": rng.random() < 0.5, "moore": rng.random() < 0.5, "cell_of": cell_of, "lw": lw, "lh": lh, "lplace": lplace,
             "salt": rng.randrange(1000), "ops": []}
     nid = n
+    placed = [x[0] for x in lplace]
     for _ in range(rng.randint(3, 12)):
         r = rng.random()
-        if r < 0.4:
+        if r < 0.08:
+            case["ops"].append(["shuffle_do", _gen_term(rng, rng.randint(0, 3))])
+        elif r < 0.14:
+            cand = [(x, y) for x in range(lw) for y in range(lh)]
+            rng.shuffle(cand)
+            who = rng.choice(placed) if placed and rng.random() < 0.85 else rng.randint(1, max(1, nid))
+            case["ops"].append(["oneof", who, [list(p) for p in cand[:rng.randint(0, min(6, len(cand)))]], rng.random() < 0.6])
+        elif r < 0.4:
             case["ops"].append(["derive", _gen_term(rng, rng.randint(0, 4))])
         elif r < 0.55:
             case["ops"].append(["derivec", _gen_cterm(rng, rng.randint(0, 3), cw * ch)])
@@ -1268,14 +1416,24 @@ def _gen_world(rng, big=False):
             nid += len(ks)
         elif r < 0.70:
             case["ops"].append(["remove", rng.randint(1, max(1, nid + 1))])
+        elif r < 0.73:
+            case["ops"].append(["sre"] if rng.random() < 0.5 else ["tre"])
         elif r < 0.76:
-            case["ops"].append(["sre"])
+            case["ops"].append([rng.choice(["rcell", "ragent"]), _gen_cterm(rng, rng.randint(0, 2), cw * ch)])
         elif r < 0.83:
-            case["ops"].append(["lplace", rng.randint(1, max(1, nid)), rng.randrange(lw + 1), rng.randrange(lh)])
+            unpl = [x for x in range(1, nid + 1) if x not in placed]
+            who = rng.choice(unpl) if unpl and rng.random() < 0.8 else rng.randint(1, max(1, nid))
+            case["ops"].append(["lplace", who, rng.randrange(lw + 1), rng.randrange(lh)])
+            placed.append(who)
         elif r < 0.88:
-            case["ops"].append(["lremove", rng.randint(1, max(1, nid))])
+            who = rng.choice(placed) if placed and rng.random() < 0.8 else rng.randint(1, max(1, nid))
+            case["ops"].append(["lremove", who])
+            placed = [x for x in placed if x != who]
         else:
-            case["ops"].append(["mte", rng.randint(1, max(1, nid + 1))])
+            who = rng.randint(1, max(1, nid + 1))
+            case["ops"].append(["mte", who])
+            if who <= nid and who not in placed:
+                placed.append(who)
     return case
 
 
@@ -1299,22 +1457,24 @@ def gen_cases(rng, tier):
     cases = []
     hashseeds = [0, 1, 2] if not thorough else [0, 1, 2, 3, 5, 8, 13, 4242]
     steps = 5 if not thorough else 30
-    # (ii) the nine bundled examples
-    for name in sorted(EXAMPLES):
-        seeds = [rng.randrange(10**6)] if not thorough else [rng.randrange(10**6), 42]
-        for sd in seeds:
-            cases.append({"kind": "env", "hashseeds": hashseeds, "priors": True,
-                          "ops": [{"kind": "example", "model": name, "kwargs": EXAMPLES[name][2], "seed": sd, "steps": steps}]})
-    # (i) API scripts, 8 per environment case
+    # (ii) the nine bundled examples, three per environment case (each comes first in one of the interpreters)
+    ejobs = []
+    for rep in range(1 if not thorough else 2):
+        for name in sorted(EXAMPLES):
+            ejobs.append({"kind": "example", "model": name, "kwargs": EXAMPLES[name][2],
+                          "seed": rng.randrange(10**6) if rep == 0 else 42, "steps": steps})
+    for s in range(0, len(ejobs), 3):
+        cases.append({"kind": "env", "hashseeds": hashseeds, "priors": True, "jobs": ejobs[s:s + 3]})
+    # (i) API scripts
     nscripts = 64 if not thorough else 600
-    per = 8 if not thorough else 25
+    per = 16 if not thorough else 40
     specs = [_script_spec(rng) for _ in range(nscripts)]
     for s in range(0, nscripts, per):
         cases.append({"kind": "env", "hashseeds": hashseeds if not thorough else hashseeds[:4], "priors": True,
-                      "ops": [{"kind": "script", "spec": sp} for sp in specs[s:s + per]]})
+                      "jobs": [{"kind": "script", "spec": sp} for sp in specs[s:s + per]]})
     # re-seeding
     cases.append({"kind": "env", "hashseeds": [0, 1], "priors": False,
-                  "ops": [{"kind": "reset", "form": f, "seed": rng.randrange(10**6), "n": 8}
+                  "jobs": [{"kind": "reset", "form": f, "seed": rng.randrange(10**6), "n": 8}
                           for f in ("seed", "rng-int", "rng-seq", "rng-gen", "rng-list")]})
     # batch_run in spawn workers
     bm = ["Schelling", "VirusOnNetwork"] if not thorough else ["Schelling", "VirusOnNetwork", "BoltzmannWealth", "WolfSheep"]
@@ -1323,7 +1483,7 @@ def gen_cases(rng, tier):
             continue
         sds = [rng.randrange(1000), rng.randrange(1000)]
         cases.append({"kind": "env", "hashseeds": [0] if not thorough else [0, 7], "priors": False,
-                      "ops": [{"kind": "batch", "model": name, "seeds": sds, "iterations": 2, "steps": 4, "procs": p}
+                      "jobs": [{"kind": "batch", "model": name, "seeds": sds, "iterations": 2, "steps": 4, "procs": p}
                               for p in ([1, 2] if not thorough else [1, 2, 3])]})
     # model-tied worlds
     nw = 240 if not thorough else 4000
@@ -1375,7 +1535,8 @@ def enumerate_cases(tier, broken=False):
             for s in range(0, len(ops), 60):
                 yield {"kind": "world", "seed": 5, "agents": [[0, 1], [1, 1], [0, 2], [1, 3], [0, 1]], "space_seeded": seeded,
                        "cw": 2, "ch": 2, "ctorus": False, "moore": True, "cell_of": [[1, 0], [2, 0], [3, 3]], "lw": 2, "lh": 2,
-                       "lplace": [[1, 0, 0], [4, 1, 1]] if occupied else [], "salt": 3, "ops": ops[s:s + 60] + [["create", 1, [2, 2]], ["sre"]]}
+                       "lplace": [[1, 0, 0], [4, 1, 1]] if occupied else [], "salt": 3, "ops": ops[s:s + 60] + [["create", 1, [2, 2]], ["sre"], ["tre"], ["rcell", ["cempties"]], ["ragent", ["call"]],
+                                                   ["shuffle_do", ["agents"]], ["shuffle_do", ["space_agents"]], ["rcell", ["cnew", ["call"], False]]]}
     lim = 3
     for lw in range(1, lim + 1):
         for lh in range(1, lim + 1):
@@ -1387,14 +1548,16 @@ def enumerate_cases(tier, broken=False):
                     yield {"kind": "world", "seed": rng.randrange(10**6), "agents": [[0, 0]] * n, "space_seeded": True, "cw": 1, "ch": 1,
                            "ctorus": False, "moore": True, "cell_of": [], "lw": lw, "lh": lh,
                            "lplace": [[i + 1, cells[i][0], cells[i][1]] for i in range(nocc)], "salt": salt,
-                           "ops": [["mte", n], ["mte", 1], ["mte", n], ["lremove", 1], ["mte", 2], ["mte", 1]]}
+                           "ops": [["mte", n], ["mte", 1], ["oneof", 1, [list(c) for c in cells[:3]], True], ["mte", n], ["lremove", 1],
+                                   ["oneof", 2, [list(c) for c in cells], False], ["mte", 2], ["mte", 1], ["oneof", 2, [list(c) for c in cells], True]]}
 
 
 RULE = ("world histories = one mesa.Model(seed) with <= 7 agents of two classes, a 1..3 x 1..3 cell grid built with or without "
         "model.random, a legacy SingleGrid (1..3 x 1..3, every 8th 6..7 x 6..7 so that the rejection branch of move_to_empty "
         "runs) whose _empties set iterates in a salted random order, and 3-12 operations: derivation terms of depth <= 4 over "
         "select/shuffle/sort/groupby/copy/AgentSet()/space.agents/grid.agents, cell-collection terms, create_agents, remove, "
-        "place, remove_agent, move_to_empty, select_random_empty_cell; env histories = each bundled example and batches of random "
+        "place, remove_agent, move_to_empty, move_agent_to_one_of (random / closest), shuffle_do, select_random_cell / _agent on "
+        "derived cell collections, select_random_empty_cell (both strategies); env histories = each bundled example and batches of random "
         "API scripts run in fresh interpreters under several PYTHONHASHSEED values, fresh and after other models ran in the "
         "process, reset_randomizer/reset_rng replays for five seed forms, batch_run with 1/2(/3) spawn workers; "
         "non-trivial = a world history with >= 2 operations and a non-error observation, or an env history with a multi-step digest")
